@@ -81,3 +81,12 @@ func init() {
 			{Name: "random", Run: "^TestRandomPrograms$", Checks: [2]int{150, 3000}, Shards: [2]int{4, 16}},
 		}})
 }
+
+func init() {
+	reg(PropCfg{ID: "C09", Pkg: "c09", Level: "exploration",
+		Rule: "threshold and scaling oracle without a model of the compile scheme: program families parameterised by recursion depth, expression nesting, locals per frame, nested calls (sizes 1,4,16,48) x limit dimension (VM call depth, operand stack, memory; interpreter call depth) x a scan of 24 limit values 0..5000: never a crash, every stop has the corresponding fatal kind, outcome monotone in the limit, a demand >= 12x the limit is stopped; leak freedom: for 43 loop bodies (every statement form) the smallest limit with which 10 iterations complete is found by bisection, then 1000 and 20000 (thorough 200000) iterations must complete with that limit + 25% slack; non-trivial = every scanned family/dimension and every leak check; distinct by (family|body, dimension, size)",
+		Jobs: []Job{
+			{Name: "thresholds", Run: "^TestTableThresholds$", Shards: [2]int{8, 8}},
+			{Name: "leaks", Run: "^TestTableLeaks$", Shards: [2]int{8, 16}},
+		}})
+}
